@@ -25,9 +25,7 @@ import (
 	"github.com/kardiachain/go-kardia/mainchain/blockchain"
 	"github.com/kardiachain/go-kardia/mainchain/genesis"
 	vm "github.com/kardiachain/go-kardia/mainchain/kvm"
-	"github.com/kardiachain/go-kardia/mainchain/staking"
 	stypes "github.com/kardiachain/go-kardia/mainchain/staking/types"
-	"github.com/kardiachain/go-kardia/mainchain/tx_pool"
 	kproto "github.com/kardiachain/go-kardia/proto/kardiachain/types"
 	"github.com/kardiachain/go-kardia/trie"
 	"github.com/kardiachain/go-kardia/types"
@@ -290,9 +288,17 @@ func (r *Replica) Apply(e *Entry) (Result, error) {
 	}
 	r.BOps.SaveBlock(e.Block, e.Parts, e.Seen)
 	r.rec.last = Result{}
+	poolState := r.TxPool.State()
 	st, _, err := r.Exec.ApplyBlock(r.State.Copy(), e.ID, e.Block)
 	if err != nil {
 		return r.rec.last, fmt.Errorf("ApplyBlock: %w", err)
+	}
+	// the pool follows head events on its own goroutine; wait until it has switched to the new head's state
+	for i := 0; r.TxPool.State() == poolState; i++ {
+		if i > 100000 {
+			return r.rec.last, fmt.Errorf("harness: transaction pool did not follow the new head")
+		}
+		time.Sleep(50 * time.Microsecond)
 	}
 	r.State = st
 	r.Tip = e
@@ -375,27 +381,20 @@ func (r *Replica) HeadRoot() common.Hash {
 	return rawdb.ReadAppHash(r.DB, r.BC.CurrentBlock().Height())
 }
 
-// DraftFromPool builds the next proposal the way a proposer does: the given transactions are submitted to a fresh
-// transaction pool on this node's chain (NewTxPool resets synchronously to the current head, which keeps the case a
-// function of the drawn input; the node's long-lived pool follows head events on its own goroutine) and a
-// BlockOperations wired like mainchain/backend.go runs CreateProposalBlock over it. Returns the pool's verdict per
-// submitted transaction.
+// DraftFromPool builds the next proposal the way a proposer does: the given transactions are submitted to the node's
+// own transaction pool and the node's own BlockOperations runs CreateProposalBlock over it (so that anything the
+// proposer keeps from making the proposal is still there when it commits the block). Returns the pool's verdict per
+// submitted transaction. Apply waits until the pool has followed the new head, which keeps the pool's view a function
+// of the chain and not of goroutine timing.
 func (r *Replica) DraftFromPool(txs []*types.Transaction, local bool, o ProposeOpts) (*Draft, []error, error) {
-	pool := tx_pool.NewTxPool(netsim.TxPoolConfig(), r.BC.Config(), r.BC)
-	defer pool.Stop()
 	var errs []error
-	if local {
-		errs = pool.AddLocals(txs)
-	} else {
-		errs = pool.AddRemotesSync(txs)
+	if len(txs) > 0 {
+		if local {
+			errs = r.TxPool.AddLocals(txs)
+		} else {
+			errs = r.TxPool.AddRemotesSync(txs)
+		}
 	}
-	su, err := staking.NewSmcStakingUtil()
-	if err != nil {
-		return nil, nil, err
-	}
-	saved := r.BOps
-	r.BOps = blockchain.NewBlockOperations(log.New(), r.BC, pool, r.EvPool, su)
-	defer func() { r.BOps = saved }()
 	d, err := r.Draft(o)
 	return d, errs, err
 }
